@@ -66,8 +66,12 @@ class RecTransport:
 
         i = self.attempts
         self.attempts += 1
-        if self.fail is not None and self.fail(i):
-            raise TransportFailedError("injected write fault %d" % i)
+        r = self.fail(i) if self.fail is not None else None
+        if r:
+            # the Transport contract: "method callers should handle TransportError" - a fault may be
+            # the base class or any subclass
+            exc = r if isinstance(r, type) else TransportFailedError
+            raise exc("injected write fault %d" % i)
         if self.on_write is not None:
             self.on_write(decoded_message)
         self.writes.append(decoded_message)
